@@ -340,7 +340,7 @@ Theorem excl_object_store cfg retries v0 now0 progs sched :
   (forall v, cur_val s = Some v -> LInv v /\ forall t, Excl t v).
 Proof.
   intros H0 s.
-  destruct (cas_invariant table lop lout (lease_decide cfg) 0 retries v0 now0 progs LInv sched H0) as [A B].
+  destruct (cas_invariant (lease_decide cfg) 0 retries v0 now0 progs LInv sched H0) as [A B].
   { intros now op prev v' o Hp Hd. apply (lease_decide_preserves _ _ _ _ _ _ Hp Hd). }
   fold s in A, B. split.
   - intros k Hin. rewrite Forall_forall in A. specialize (A k Hin).
@@ -427,8 +427,8 @@ Theorem acquire_conflict_exact b cfg now id h cs lv t o :
   b = ObjectStore /\ exists c r, o = EConflict (c :: r) /\
     forall x, In x (c :: r) <-> In x cs /\ exists j l, In (j, l) t /\ live now l = true /\ In x (l_chunks l).
 Proof.
-  simpl. destruct (conflicts now (drop_expired now t) cs) as [|c r] eqn:Ec; [discriminate|].
-  destruct b; [|discriminate]. intros H. inversion H; subst o. split; [reflexivity|].
+  intros H. simpl in H. destruct (conflicts now (drop_expired now t) cs) as [|c r] eqn:Ec; [discriminate|].
+  destruct b; [|discriminate]. inversion H; subst o. split; [reflexivity|].
   exists c, r. split; [reflexivity|]. intros x. rewrite <- Ec. unfold conflicts.
   rewrite filter_In, memN_iff, In_leased_chunks. split.
   - intros [A [j [l [Hin [Hl Hx]]]]]. split; [exact A|]. exists j, l.
@@ -514,9 +514,11 @@ Proof.
   inversion Hd; subst t1 o1.
   assert (aget N.eqb id (k_val k) = None) as Hn by (apply (body_absent_stays _ _ _ _ _ _ _ _ Hg Hop Eb)).
   constructor.
-  - split; [|exact Hn]. intros E. rewrite E in Eb.
+  - split; [|exact Hn]. intros E.
     pose proof (renew_outcome ObjectStore cfg (k_now k) id (tbl v)) as Ho. rewrite Hg in Ho.
-    rewrite Ho in Eb. discriminate.
+    assert (lease_body ObjectStore cfg (k_now k) (ORenew id) (tbl v) = Write (k_val k) (k_out k)) as X
+      by (rewrite <- E; exact Eb).
+    rewrite Ho in X. discriminate.
   - apply (IH (Some (k_val k))); [exact Hc|exact Hn|exact Hr].
 Qed.
 
@@ -659,7 +661,7 @@ Proof.
   unfold lease_decide. simpl.
   destruct (conflicts now (drop_expired now (tbl prev)) cs) as [|c r]; [|discriminate].
   intros H. inversion H; subst.
-  eexists. split; [apply aget_aset_same|]. simpl. repeat split; try reflexivity. lia.
+  eexists. split; [apply aget_aset_same|]. simpl. repeat split; try reflexivity; try lia.
 Qed.
 
 (* the full statement for the object-store backend, for every schedule: take
@@ -680,7 +682,7 @@ Theorem renewed_in_time_not_stolen cfg retries v0 now0 progs sched :
                                   ~ share cs (l_chunks l2)) post.
 Proof.
   intros H0 s pre k0 post id h cs lv Hlog Hop Hit.
-  destruct (cas_linearizable table lop lout (lease_decide cfg) 0 retries v0 now0 progs sched) as [Hc _].
+  destruct (cas_linearizable (lease_decide cfg) 0 retries v0 now0 progs sched) as [Hc _].
   fold s in Hc. rewrite Hlog in Hc.
   pose proof (chain_suffix _ _ _ _ Hc) as Hc2. simpl in Hc2. destruct Hc2 as [_ [Hd Hpost]].
   rewrite Hop in Hd. pose proof (acquire_commit_holds _ _ _ _ _ _ _ _ _ Hd) as Hh.
@@ -802,6 +804,149 @@ Proof.
       * apply (H2 i j l1 l2); assumption.
     + intros H. split.
       * intros [j l2] Hy Hne La Lb. destruct x as [i l1]. simpl in *.
-        apply (H i j l1 l2); auto.
+        apply (H i j l1 l2); [left; reflexivity|right; exact Hy|exact Hne|exact La|exact Lb].
       * intros i j l1 l2 A B. apply H; right; assumption.
 Qed.
+
+(* ------------------------------------------------------------------ *)
+(* non-vacuity: concrete schedules on the object-store model (times in ms) *)
+(* ------------------------------------------------------------------ *)
+Definition ex_progs (c : nat) : list lop :=
+  match c with
+  | O => [OAcquire 1 10 [1; 2]%N 0; ORenew 1]
+  | S O => [OAcquire 2 11 [2; 3]%N 0; OAcquire 3 11 [2; 3]%N 0]
+  | _ => []
+  end.
+
+Definition ex_race : list label := [Req 0; Req 1; Req 0; Req 1; Req 1].
+
+(* first-write race of two overlapping acquires: both load "absent", node 0
+   creates the file, node 1's Create fails, it reloads and is refused with the
+   shared chunk; exactly one version was written *)
+Example ex_overlapping_acquires :
+  let s := s3_run ex_race (s3_init None 0 ex_progs) in
+  map (fun k => map fst (k_val k)) (s_log s) = [[1%N]] /\
+  c_done (s_cl s 1%nat) = [(OAcquire 2 11 [2; 3]%N 0, FAbort (EConflict [2%N]))] /\
+  c_done (s_cl s 0%nat) =
+    [(OAcquire 1 10 [1; 2]%N 0, FCommit (RLease 1 (mkLease 10 [1; 2]%N 0 0 300000 Active)))].
+Proof. vm_compute. repeat split; reflexivity. Qed.
+
+(* the holder stops renewing; once the TTL has passed, the other node's next
+   acquire reclaims the chunks (the expired lease is dropped from the file),
+   and the old holder's next renew is answered "not found" *)
+Example ex_expiry_reclaim_told :
+  let s := s3_run (ex_race ++ [Tick 300000; Req 1; Req 1; Req 0]) (s3_init None 0 ex_progs) in
+  map (fun k => map fst (k_val k)) (s_log s) = [[1%N]; [3%N]] /\
+  c_done (s_cl s 0%nat) =
+    [(OAcquire 1 10 [1; 2]%N 0, FCommit (RLease 1 (mkLease 10 [1; 2]%N 0 0 300000 Active)));
+     (ORenew 1, FAbort ENotFound)] /\
+  Forall (fun k => exclb 300000 (k_val k) = true) (s_log s).
+Proof. vm_compute. repeat split; repeat constructor. Qed.
+
+(* one millisecond earlier the lease is still live and the acquire is refused *)
+Example ex_not_yet_expired :
+  let s := s3_run (ex_race ++ [Tick 299999; Req 1]) (s3_init None 0 ex_progs) in
+  map (fun k => map fst (k_val k)) (s_log s) = [[1%N]] /\
+  nth_error (c_done (s_cl s 1%nat)) 1 = Some (OAcquire 3 11 [2; 3]%N 0, FAbort (EConflict [2%N])).
+Proof. vm_compute. split; reflexivity. Qed.
+
+(* a renew after 120 s moves the deadline to 420 s: at 320 s the other node is refused *)
+Example ex_renewed_in_time :
+  let s := s3_run (ex_race ++ [Tick 120000; Req 0; Req 0; Tick 200000; Req 1])
+                  (s3_init None 0 ex_progs) in
+  map (fun k => map (fun x => (fst x, l_expires (snd x))) (k_val k)) (s_log s)
+    = [[(1%N, 300000)]; [(1%N, 420000)]] /\
+  nth_error (c_done (s_cl s 1%nat)) 1 = Some (OAcquire 3 11 [2; 3]%N 0, FAbort (EConflict [2%N])) /\
+  in_time s3_cfg 1 300000 (log_ops (skipn 1 (s_log s))).
+Proof. vm_compute. repeat split; reflexivity. Qed.
+
+(* retry exhaustion: node 0's conditional PUT loses MAX_CAS_RETRIES times in a
+   row against commits of node 1; it gives up with TooManyRetries and has
+   written nothing *)
+Definition ex_progs2 (c : nat) : list lop :=
+  match c with
+  | O => [OAcquire 1 10 [1%N] 0]
+  | S O => [OAcquire 2 11 [2%N] 0; OComplete 2; OFail 2; OComplete 2; OFail 2; OComplete 2]
+  | _ => []
+  end.
+Definition ex_round : list label := [Req 0; Req 1; Req 1; Req 0].
+Example ex_retry_exhaustion :
+  let s := s3_run ([Req 1; Req 1] ++ ex_round ++ ex_round ++ ex_round ++ ex_round ++ ex_round)
+                  (s3_init None 0 ex_progs2) in
+  c_done (s_cl s 0%nat) = [(OAcquire 1 10 [1%N] 0, FRetries)] /\
+  length (s_log s) = 6%nat /\
+  Forall (fun k => map fst (k_val k) = [2%N]) (s_log s).
+Proof. vm_compute. repeat split; repeat constructor. Qed.
+
+(* the predicate is not trivially true: two live leases sharing chunk 2 *)
+Example ex_excl_can_fail :
+  let bad := [(1%N, mkLease 10 [1; 2]%N 0 0 300 Active); (2%N, mkLease 11 [2; 3]%N 0 0 300 Active)] in
+  ~ Excl 100 bad /\ Excl 300 bad /\ ~ StrongExcl bad.
+Proof.
+  intros bad. split; [|split].
+  - intros H. apply exclb_iff in H. vm_compute in H. discriminate.
+  - apply exclb_iff. vm_compute. reflexivity.
+  - intros H. pose proof (strong_excl_at _ H 100) as H1. apply exclb_iff in H1. vm_compute in H1. discriminate.
+Qed.
+
+(* the in-memory backend keeps the scavenging of a refused acquire, the
+   object-store backend does not (no write happens) *)
+Example ex_backends_differ_on_refused_acquire :
+  let t := [(1%N, mkLease 10 [1%N] 0 0 300 Active); (2%N, mkLease 11 [2%N] 0 0 900 Active)] in
+  lease_body ObjectStore s3_cfg 500 (OAcquire 3 12 [2%N] 0) t = NoWrite (EConflict [2%N]) /\
+  lease_body InMemory local_cfg 500 (OAcquire 3 12 [2%N] 0) t
+    = Write [(2%N, mkLease 11 [2%N] 0 0 900 Active)] (EConflict [2%N]).
+Proof. vm_compute. split; reflexivity. Qed.
+
+Example ex_in_memory_history :
+  let s := local_run 0 [HOp (OAcquire 1 10 [1; 2]%N 0); HOp (OAcquire 2 11 [2; 3]%N 0);
+                        HTick 300000; HOp (OAcquire 3 11 [2; 3]%N 0); HOp (ORenew 1); HOp OScavenge] in
+  map fst (ls_tab s) = [3%N] /\
+  map (fun o => match o with RLease i _ => Some i | _ => None end) (ls_outs s)
+    = [Some 1%N; None; Some 3%N; None; None] /\
+  nth_error (ls_outs s) 1 = Some (EConflict [2%N]) /\ nth_error (ls_outs s) 3 = Some ENotFound /\
+  nth_error (ls_outs s) 4 = Some (RCount 0).
+Proof. vm_compute. repeat split; reflexivity. Qed.
+
+(* ------------------------------------------------------------------ *)
+(* the instances with the constants of the Rust sources (Properties/C08.v) *)
+(* ------------------------------------------------------------------ *)
+Corollary c08_object_store (v0 : option table) (now0 : Z) (progs : nat -> list lop) (sched : list label) :
+  opt_inv v0 ->
+  let s := s3_run sched (s3_init v0 now0 progs) in
+  (forall k, In k (s_log s) -> LInv (k_val k) /\ forall t, Excl t (k_val k)) /\
+  (forall v, cur_val s = Some v -> LInv v /\ forall t, Excl t v).
+Proof. exact (excl_object_store s3_cfg s3_retries v0 now0 progs sched). Qed.
+
+Corollary c08_in_memory (now0 : Z) (h : list hstep) :
+  let s := local_run now0 h in
+  LInv (ls_tab s) /\ forall t, Excl t (ls_tab s).
+Proof. apply (excl_in_memory local_cfg h (mkLState now0 [] [])). apply LInv_nil. Qed.
+
+Corollary c08_renewed_object_store (v0 : option table) (now0 : Z) (progs : nat -> list lop) (sched : list label) :
+  opt_inv v0 ->
+  let s := s3_run sched (s3_init v0 now0 progs) in
+  forall pre k0 post id h cs lv,
+    s_log s = pre ++ k0 :: post ->
+    k_op k0 = OAcquire id h cs lv ->
+    in_time s3_cfg id (k_now k0 + acq_ttl s3_cfg) (log_ops post) ->
+    Forall (fun k => (exists e, holds id h cs e (k_val k)) /\
+                     forall j l2, In (j, l2) (k_val k) -> j <> id -> is_active l2 = true ->
+                                  ~ share cs (l_chunks l2)) post.
+Proof. exact (renewed_in_time_not_stolen s3_cfg s3_retries v0 now0 progs sched). Qed.
+
+Corollary c08_renewed_in_memory (id hd : N) (cs : list N) (h : list hstep) (s : lstate) (e : Z) :
+  LInv (ls_tab s) ->
+  holds id hd cs e (ls_tab s) ->
+  in_time local_cfg id e (timed (ls_now s) h) ->
+  let s' := local_run_from local_cfg h s in
+  (exists e', holds id hd cs e' (ls_tab s')) /\
+  forall j l2, In (j, l2) (ls_tab s') -> j <> id -> is_active l2 = true -> ~ share cs (l_chunks l2).
+Proof. exact (renewed_in_time_in_memory local_cfg id hd cs h s e). Qed.
+
+Corollary c08_reclaimed_never_renewed (id : N) (log : list lcommit) (v : option table) :
+  chain s3_decide v log ->
+  aget N.eqb id (tbl v) = None ->
+  Forall (fun k => not_acquire_of id (k_op k)) log ->
+  Forall (fun k => k_op k <> ORenew id /\ aget N.eqb id (k_val k) = None) log.
+Proof. exact (reclaimed_never_renewed s3_cfg id log v). Qed.
